@@ -476,3 +476,29 @@ func isOneOfShape(t reflect.Type) bool {
 type opaqueReader struct{ r *bytes.Reader }
 
 func (o *opaqueReader) Read(p []byte) (int, error) { return o.r.Read(p) }
+
+// netBody behaves like a body that arrives over a connection (http.Response.Body from a transport, http.Request.Body
+// in a server): Read hands out what has arrived so far - here short pieces of changing length, which the io.Reader
+// contract allows at any time - and fails once the body was closed, as net/http's bodies do.
+type netBody struct {
+	r      *bytes.Reader
+	n      int
+	closed bool
+	what   string
+}
+
+func newNetBody(bs []byte, what string) *netBody { return &netBody{r: bytes.NewReader(bs), what: what} }
+
+func (b *netBody) Read(p []byte) (int, error) {
+	if b.closed {
+		return 0, fmt.Errorf("http: read on closed %s body", b.what)
+	}
+	b.n++
+	max := 1 + (b.n*37)%509
+	if len(p) > max {
+		p = p[:max]
+	}
+	return b.r.Read(p)
+}
+
+func (b *netBody) Close() error { b.closed = true; return nil }
